@@ -80,6 +80,7 @@ structure D where
   allocChecks : Nat := 0
   maxAllocRatio : Nat := 0
   tailChecks : Nat := 0
+  durChecks : Nat := 0
 
 def hexVal (c : Char) : Option Nat :=
   if '0' ≤ c ∧ c ≤ '9' then some (c.toNat - '0'.toNat)
@@ -315,7 +316,15 @@ def checkSegs (d : D) (toks : List String) : IO D := do
   if real.length != model.length then
     d ← fail d "MODEL" s!"segs: implementation has {real.length} segments, model {model.length}"
     return d
-  for (r, m) in real.zip model do
+  for (r0, m) in real.zip model do
+    if r0.length == 9 then
+      match r0 with
+      | [id, _, _, flen, _, _, cur, _, dur] =>
+        d := { d with durChecks := d.durChecks + 1 }
+        if cur == 0 && dur < flen then
+          d ← fail d "MODEL" s!"segs: segment {id} is not current but only {dur} of its {flen} bytes are durable (a full segment must be synced before the log moves on)"
+      | _ => pure ()
+    let r := r0.take 8
     match r with
     | [id, seq, size, flen, crc, full, cur, dels] =>
       -- MetaInv: the pick rule reads DeleteRecords; it must say whether delete records are present
@@ -738,5 +747,5 @@ partial def loop (h : IO.FS.Stream) (d : D) : IO D := do
 
 def main : IO UInt32 := do
   let d ← loop (← IO.getStdin) {}
-  IO.println s!"SUMMARY cases={d.cases} lines={d.lines} fails={d.fails} spec_fails={d.specFails} inv_fails={d.invFails} model_fails={d.modelFails} images={d.images} inflight_after={d.imagesInflightAfter} inflight_before={d.imagesInflightBefore} dumps={d.dumps} layout_agree={d.layoutAgree}/{d.layoutTotal} flayout_agree={d.flayoutAgree}/{d.flayoutTotal} seg_checks={d.segChecks} max_chain={d.maxChain} max_buckets={d.maxBuckets} rollovers={d.rollovers} compactions={d.compactions} recoveries={d.recoveries} holes={d.holes} alloc_checks={d.allocChecks} max_alloc_ratio={d.maxAllocRatio} tail_checks={d.tailChecks} goldens={d.goldens} scans={d.scans} scans_with_writers={d.scansWithWriters} backups={d.backups} lock_steps={d.lockSteps} conc_checks={d.concChecks} alias_checks={d.aliasChecks} fsdiff_checks={d.fsdiffChecks}"
+  IO.println s!"SUMMARY cases={d.cases} lines={d.lines} fails={d.fails} spec_fails={d.specFails} inv_fails={d.invFails} model_fails={d.modelFails} images={d.images} inflight_after={d.imagesInflightAfter} inflight_before={d.imagesInflightBefore} dumps={d.dumps} layout_agree={d.layoutAgree}/{d.layoutTotal} flayout_agree={d.flayoutAgree}/{d.flayoutTotal} seg_checks={d.segChecks} max_chain={d.maxChain} max_buckets={d.maxBuckets} rollovers={d.rollovers} compactions={d.compactions} recoveries={d.recoveries} holes={d.holes} alloc_checks={d.allocChecks} max_alloc_ratio={d.maxAllocRatio} tail_checks={d.tailChecks} dur_checks={d.durChecks} goldens={d.goldens} scans={d.scans} scans_with_writers={d.scansWithWriters} backups={d.backups} lock_steps={d.lockSteps} conc_checks={d.concChecks} alias_checks={d.aliasChecks} fsdiff_checks={d.fsdiffChecks}"
   return (if d.fails == 0 then 0 else 1)
